@@ -166,6 +166,19 @@ def logic_cells(widths):
                       spec=lambda P, a: a != 0))
     cells.append(Cell(key="all_gen", ins=[("a", BV(3))], out=BIT, body="{o} <<= all([bit for bit in {a}])",
                       spec=lambda P, a: a == 7))
+    # merges of operands of different (compatible) types: the narrower Unsigned keeps its number inside a wider Signed
+    cells.append(Cell(key="ifexpr_mixed|U->S", ins=[("a", U(w - 1)), ("b", S(w + 1)), ("c", BIT)], out=S(w + 1), body="{o} <<= {a} if {c} else {b}",
+                      spec=lambda P, a, b, c: P.ite(c != 0, a, b), range_check=True))
+    cells.append(Cell(key="ifexpr_mixed|S<-U", ins=[("a", U(w - 1)), ("b", S(w + 1)), ("c", BIT)], out=S(w + 1), body="{o} <<= {b} if {c} else {a}",
+                      spec=lambda P, a, b, c: P.ite(c != 0, b, a), range_check=True))
+    cells.append(Cell(key="ifexpr_mixed|U->wider U", ins=[("a", U(w - 1)), ("b", U(w + 1)), ("c", BIT)], out=U(w + 1), body="{o} <<= {a} if {c} else {b}",
+                      spec=lambda P, a, b, c: P.ite(c != 0, a, b), range_check=True))
+    cells.append(Cell(key="select_mixed|U,S", ins=[("s", BV(2)), ("a", U(w - 1)), ("b", S(w + 1))], out=S(w + 1),
+                      body='{o} <<= std.select({s}, {{"00": {a}, "01": {b}}}, default={b})', spec=lambda P, s, a, b: P.ite(s == 0, a, b), range_check=True))
+    # slices of slices of slices address the bits of the root object
+    cells.append(Cell(key="slice3|BV", ins=[("a", BV(8))], out=BV(2), body="{o} <<= {a}[7:2][4:1][2:1]", spec=lambda P, a: P.wrap(P.shr(a, 4), 2, False)))
+    cells.append(Cell(key="slice3|U.msb.lsb", ins=[("a", U(8))], out=BV(2), body="{o} <<= {a}[7:1].msb(4).lsb(2)", spec=lambda P, a: P.wrap(P.shr(a, 4), 2, False)))
+    cells.append(Cell(key="slice3|index", ins=[("a", S(8))], out=BIT, body="{o} <<= {a}[7:2][5:2][1]", spec=lambda P, a: P.wrap(P.shr(P.wrap(a, 8, False), 5), 1, False)))
     # explicit bool() casts of conditions (chains of casts must end at a temporary that is still assigned)
     cells.append(Cell(key="boolcast|ifexpr", ins=[("a", U(w)), ("b", U(w))], out=U(w), body="{o} <<= {a} if bool({a} == {b}) else {b}",
                       spec=lambda P, a, b: P.ite(a == b, a, b)))
